@@ -51,7 +51,10 @@ class MeshLine1(MeshSimplex, Mesh):
             self,
             doflocs=newp,
             t=newt,
-            _subdomains=None,
+            _subdomains=(None if self._subdomains is None else {
+                name: np.sort(np.concatenate((2 * ixs, 2 * ixs + 1)))
+                for name, ixs in self._subdomains.items()
+            }),
         )
 
     def _adaptive(self, marked):
